@@ -30,6 +30,7 @@ def graph_case(draw):
                       "fails": False, "msg_pos": draw(st.integers(0, 3)), "dflt": draw(st.booleans()),
                       "suspend": draw(st.booleans()),
                       "ddflt": draw(st.sampled_from([None, None, 0, 1, 2])), "kwonly": draw(st.sampled_from([None, None, None, 0, 1])),
+                      "wrapped": draw(st.integers(0, 4)) == 0,
                       # the value a provider returns may be anything - also an exception *object* (returned, not raised)
                       "as_exc": draw(st.integers(0, 7)) == 0})
     actor_deps = draw(st.lists(st.integers(0, n - 1), min_size=1, max_size=3, unique=True))
@@ -41,7 +42,8 @@ def graph_case(draw):
                           "deps": draw(st.lists(st.sampled_from(cands), max_size=2, unique=True)) if cands else [],
                           "msg": draw(st.integers(0, 2)) == 0, "tag": f"n{tgt}v{len(overrides) + 1}",
                           "msg_pos": draw(st.integers(0, 3)), "dflt": draw(st.booleans()), "suspend": draw(st.booleans()),
-                          "ddflt": draw(st.sampled_from([None, None, 0, 1])), "kwonly": draw(st.sampled_from([None, None, None, 0]))})
+                          "ddflt": draw(st.sampled_from([None, None, 0, 1])), "kwonly": draw(st.sampled_from([None, None, None, 0])),
+                          "wrapped": draw(st.integers(0, 4)) == 0})
     fail_node = draw(st.one_of(st.none(), st.none(), st.integers(0, n - 1)))
     return {"nodes": nodes, "actor_deps": actor_deps, "overrides": overrides, "fail_node": fail_node,
             "actor_msg": draw(st.booleans()), "actor_msg_pos": draw(st.integers(0, 3)), "payload": draw(st.one_of(st.none(), st.fixed_dictionaries({"x": st.integers(0, 9)}))),
@@ -50,7 +52,8 @@ def graph_case(draw):
 
 
 def provider_source(name: str, tag: str, is_async: bool, deps: list, msg: bool, fails: bool, msg_pos: int = 99,
-                    dflt: bool = False, suspend: bool = False, as_exc: bool = False, ddflt: int | None = None, kwonly: int | None = None) -> str:
+                    dflt: bool = False, suspend: bool = False, as_exc: bool = False, ddflt: int | None = None, kwonly: int | None = None,
+                    wrapped: bool = False) -> str:
     params = [f"d{j}: Annotated[str, DEP[{j}]]" for j in deps]
     if msg:
         # the message dependency may be declared anywhere among the annotated ones
@@ -73,14 +76,36 @@ def provider_source(name: str, tag: str, is_async: bool, deps: list, msg: bool, 
         body += f"    return LookupError(f\"{tag}({','.join(parts)})\")\n"  # str() of it is the same text
     else:
         body += f"    return f\"{tag}({','.join(parts)})\"\n"
-    return f"{'async ' if is_async else ''}def {name}({', '.join(params)}):\n{body}"
+    deco = ""
+    if wrapped and not is_async:
+        # a sync provider behind a functools.wraps decorator that makes it awaitable (an "offload to a thread" / async cache helper):
+        # the callable handed to Depends is async, its __wrapped__ is not
+        deco = "@OFFLOAD\n"
+    # (the mirror image - an `async def` behind a plain sync decorator - is a sync callable that returns a coroutine object; what a
+    #  dependency on it should receive is not something the property settles, so it is not generated)
+    return f"{deco}{'async ' if is_async else ''}def {name}({', '.join(params)}):\n{body}"
 
 
 def build(case: dict, rec: list, calls: list):
     from repid import Depends, MessageDependency
 
     DEP: dict = {}
+    import functools
+
+    def offload(fn):
+        @functools.wraps(fn)
+        async def inner(*a, **k):
+            return fn(*a, **k)
+        return inner
+
+    def passthrough(fn):
+        @functools.wraps(fn)
+        def inner(*a, **k):
+            return fn(*a, **k)  # (returns the coroutine of the async function it wraps)
+        return inner
+
     ns: dict = {"Annotated": Annotated, "MessageDependency": MessageDependency, "DEP": DEP, "CALLS": calls, "REC": rec,
+                "OFFLOAD": offload, "PASSTHROUGH": passthrough,
                 "SLEEP": asyncio.sleep}
     cur = {}  # node id -> current provider spec
     def root(i):
@@ -94,7 +119,7 @@ def build(case: dict, rec: list, calls: list):
             continue
         src = provider_source(f"prov{nd['id']}", nd["tag"], nd["async"], nd["deps"], nd["msg"], fail_root == nd["id"],
                               nd.get("msg_pos", 99), nd.get("dflt", False), nd.get("suspend", False), nd.get("as_exc", False),
-                              nd.get("ddflt"), nd.get("kwonly"))
+                              nd.get("ddflt"), nd.get("kwonly"), nd.get("wrapped", False))
         exec(compile(src, "<provider>", "exec"), ns)  # noqa: S102
         DEP[nd["id"]] = Depends(ns[f"prov{nd['id']}"])
         cur[nd["id"]] = dict(nd, fails=fail_root == nd["id"])
@@ -109,7 +134,7 @@ def build(case: dict, rec: list, calls: list):
     exec(compile(src, "<actor>", "exec"), ns)  # noqa: S102
     for i, ov in enumerate(case["overrides"]):
         s = provider_source(f"ov{i}", ov["tag"], ov["async"], ov["deps"], ov["msg"], False, ov.get("msg_pos", 99), ov.get("dflt", False), ov.get("suspend", False),
-                            False, ov.get("ddflt"), ov.get("kwonly"))
+                            False, ov.get("ddflt"), ov.get("kwonly"), ov.get("wrapped", False))
         exec(compile(s, "<override>", "exec"), ns)  # noqa: S102
     return ns, DEP, cur
 
